@@ -287,6 +287,9 @@ class NegativeConditionsRemover(engines.engine.Engine, CompilerMixin):
         new_to_old: Dict[Action, Optional[Action]] = {}
 
         new_problem = Problem(f"{self.name}_{problem.name}", env)
+        new_problem.epsilon = problem.epsilon
+        new_problem.discrete_time = problem.discrete_time
+        new_problem.self_overlapping = problem.self_overlapping
         for o in problem.all_objects:
             new_problem.add_object(o)
 
